@@ -9,7 +9,7 @@ P="$1"; TIER="$2"; shift 2
 [ -d "$WT" ] || git -C /repo worktree add -q --detach "$WT" HEAD || exit 2
 mkdir -p "$MH"; rsync -a --delete --exclude 'target*' --exclude 'build-*.log' /verif/harness "$MH/"; rsync -a --delete /verif/bin /verif/regressions "$MH/"; cp /verif/known_findings.json "$MH/"
 sed -i "s|path = \"/repo\"|path = \"$WT\"|" "$MH/harness/checks/Cargo.toml"
-cd "$WT"; git checkout -q -- . ; git checkout -q --detach "$(git -C /repo rev-parse HEAD)"
+cd "$WT"; git reset -q --hard; git clean -fdq; git checkout -q --detach "$(git -C /repo rev-parse HEAD)"
 # a change written against an older revision of /repo: apply it with a 3-way merge against HEAD, and if that fails too
 # fall back to the revision named by SCRATCH_BASE (the tree it was written for)
 if [ "$P" != none ]; then
@@ -24,4 +24,4 @@ for id in "$@"; do
   out=$(VERIF_REPO="$WT" "$MH/bin/check" "$id" "$TIER" 2>&1); rc=$?
   echo "$id rc=$rc :: $(echo "$out" | grep -E -m3 -A2 '^VIOLATION|INTERNAL|INCONCLUSIVE' | tr '\n' ' ' | cut -c1-${WIDTH:-500})"
 done
-cd "$WT"; git checkout -q -- .
+cd "$WT"; git reset -q --hard
